@@ -171,6 +171,23 @@ def run(prop, repo, seed):
                 print('note: clippy cross-reference disagrees with the driver on who-may-call sites: %s' % extra['clippy_crossref'])
         except Exception as e:  # the cross-reference is informational
             extra['clippy_crossref'] = {'error': repr(e)}
+    if prop in ('C02', 'C11', 'C16'):
+        try:
+            import hashlink_derive
+            import rules_graph
+            derived, nb, direct = hashlink_derive.derive(repo)
+            frozen = sorted(x for x in rules_graph.REORDERING if x.startswith(('hashlink::LinkedHashSet::', 'hashlink::LinkedHashMap::')))
+            not_in_table = [d for d in derived if d not in frozen]
+            used = sorted({c.qname for b in F.bodies.values() if b.crate == 'pie_graph' and not b.unit_is_test for c in b.calls.values()})
+            gap = [d for d in not_in_table if d in used]
+            missing_from_derivation = [f for f in frozen if f not in derived and f != 'hashlink::LinkedHashMap::get_refresh']
+            extra['hashlink_rederivation'] = {'hashlink_bodies': nb, 'direct_relinkers': direct, 'derived_may_relink': derived, 'frozen_table': frozen,
+                                              'derived_not_in_table': not_in_table, 'of_those_called_by_pie_graph': gap, 'table_entries_not_derived': missing_from_derivation}
+            for d in gap:
+                extra_viol.append(dict(rule='ORD-2-table', key=d, ok=False, msg='pie_graph calls %s, which hashlink\'s own call graph shows may re-link an existing element, but the frozen table of ORD-2 does not list it' % d,
+                                       where='graph/src/lib.rs', props=(prop,), status='VIOLATION'))
+        except SystemExit as e:
+            extra['hashlink_rederivation'] = {'error': str(e)}
     if survived:
         print('self-test: %d mutant(s) tied to %s are not reported by any rule: %s' % (len(survived), prop, [t['id'] for t in survived]))
     if false_alarm:
